@@ -175,6 +175,245 @@ def d5(ctx, prog):
     return n
 
 
+class _TplEval:
+    """scalar-sample abstraction of the template code (sa.ratfun): with one sample per trace every matrix is a scalar, `outer` /
+    `dot` / `@` are products and the pseudo-inverse is the reciprocal; per-class arrays are lists of K rational functions, the
+    traces of a batch a list of symbolic traces.  Loops over the classes / hypotheses are unrolled."""
+
+    def __init__(self, ratfun, K, seeds, vectors, iter_counts):
+        self.rf, self.K = ratfun, K
+        self.ev_ = ratfun.VecEval(seeds, vectors, K)
+        self.attrs = {}
+        self.iter_counts = iter_counts      # normalised iterable text -> number of iterations
+
+    def value(self, e):
+        rf = self.rf
+        if isinstance(e, ast.Attribute) and norm(e) in self.attrs:
+            return self.attrs[norm(e)]
+        if norm(e) in self.ev_.seeds and not norm(e).startswith('$'):
+            v = self.ev_.seeds[norm(e)]
+            return v if isinstance(v, (rf.RF, list)) else rf.RF(rf.Poly.sym(v))
+        if isinstance(e, ast.Name) and e.id in self.ev_.env:
+            return self.ev_.env[e.id]
+        if isinstance(e, ast.List) and not e.elts:
+            return []
+        if isinstance(e, ast.Constant) and e.value is None:
+            return None
+        if isinstance(e, ast.Compare):
+            return 'MASK'          # a mask of degenerate classes: only used to repair them / to warn
+        if isinstance(e, ast.Subscript):
+            base = self.value(e.value)
+            idx = e.slice
+            if isinstance(base, list) and isinstance(idx, ast.Name) and isinstance(self.ev_.env.get(idx.id), int):
+                return base[self.ev_.env[idx.id]]
+            if isinstance(base, list) and isinstance(idx, ast.Constant) and isinstance(idx.value, int):
+                return base[idx.value]
+            return base
+        if isinstance(e, ast.Call):
+            name = norm(e.func).split('.')[-1]
+            if name in ('zeros', 'empty', 'zeros_like', 'empty_like'):
+                return rf.RF(rf.Poly.const(0))
+            if name in ('outer', 'dot', 'matmul', 'multiply') and len(e.args) == 2:
+                return self.ev_.lift(lambda x, y: x.mul(y), self.value(e.args[0]), self.value(e.args[1]))
+            if name == 'where' and len(e.args) == 3 and self.value(e.args[0]) == 'MASK':
+                return self.value(e.args[2])          # repair of the degenerate classes: the generic classes keep their value
+            if name in ('pinv', 'inv') and len(e.args) == 1:
+                v = self.value(e.args[0])
+                return rf.RF(rf.Poly.const(1)).mul(v, -1)
+            if name in ('copy', 'asarray', 'array', 'ascontiguousarray') and e.args:
+                v = self.value(e.args[0])
+                return v[0] if isinstance(v, list) and len(v) == 1 and name == 'array' and isinstance(e.args[0], ast.Name) and e.args[0].id in self.pylists else v
+            if isinstance(e.func, ast.Attribute) and name in ('astype', 'copy', 'swapaxes', 'transpose', 'reshape') :
+                return self.value(e.func.value)
+            if name == 'sum' and isinstance(e.func, ast.Attribute) and norm(e.func.value) not in ('_np', 'np', 'numpy'):
+                v = self.value(e.func.value)
+                if isinstance(v, list):
+                    out = v[0]
+                    for x in v[1:]:
+                        out = out.add(x)
+                    return out
+                return v
+            if name == 'len' and e.args and norm(e.args[0]) in self.iter_counts:
+                return rf.RF(rf.Poly.const(self.iter_counts[norm(e.args[0])]))
+        if isinstance(e, ast.BinOp):
+            l, r = self.value(e.left), self.value(e.right)
+            if isinstance(e.op, ast.Pow):
+                from ..model import const_value
+                k = const_value(e.right)
+                if isinstance(k, int) and 0 <= k <= 4:
+                    def pw(x):
+                        out = rf.RF(rf.Poly.const(1))
+                        for _ in range(k):
+                            out = out.mul(x)
+                        return out
+                    return [pw(x) for x in l] if isinstance(l, list) else pw(l)
+                raise rf.Unknown('power')
+            ops = {ast.Mult: lambda x, y: x.mul(y), ast.MatMult: lambda x, y: x.mul(y), ast.Div: lambda x, y: x.mul(y, -1), ast.Add: lambda x, y: x.add(y), ast.Sub: lambda x, y: x.add(y, -1)}
+            if type(e.op) in ops:
+                return self.ev_.lift(ops[type(e.op)], l, r)
+        # fall back on the generic vector evaluator (seeds, constants, unary minus ...) with our attribute / local values visible
+        saved = dict(self.ev_.seeds)
+        try:
+            for k_, v_ in self.attrs.items():
+                self.ev_.seeds[k_] = v_
+            return self.ev_.ev(e)
+        finally:
+            self.ev_.seeds = saved
+
+    pylists = ()
+
+    def run(self, fnode):
+        rf = self.rf
+        outs = []
+        self.pylists = set()
+
+        def block(stmts):
+            for st in stmts:
+                if isinstance(st, ast.Expr):
+                    c = st.value
+                    if isinstance(c, ast.Call) and isinstance(c.func, ast.Attribute) and c.func.attr == 'append' and isinstance(c.func.value, ast.Name) and c.func.value.id in self.pylists:
+                        self.ev_.env[c.func.value.id] = self.ev_.env[c.func.value.id] + [self.value(c.args[0])]
+                    continue
+                if isinstance(st, ast.Assign) and len(st.targets) == 1:
+                    t = st.targets[0]
+                    if isinstance(t, ast.Subscript):
+                        continue              # masked repair of degenerate classes: no effect on classes with at least two traces
+                    v = self.value(st.value)
+                    if isinstance(t, ast.Name):
+                        self.ev_.env[t.id] = v
+                        if isinstance(st.value, ast.List) and not st.value.elts:
+                            self.pylists.add(t.id)
+                    elif isinstance(t, ast.Attribute):
+                        self.attrs[norm(t)] = v
+                    continue
+                if isinstance(st, ast.AugAssign):
+                    t = st.target
+                    cur = self.value(t)
+                    v = self.value(st.value)
+                    ops = {ast.Mult: lambda x, y: x.mul(y), ast.Div: lambda x, y: x.mul(y, -1), ast.Add: lambda x, y: x.add(y), ast.Sub: lambda x, y: x.add(y, -1)}
+                    if type(st.op) not in ops:
+                        raise rf.Unknown('augmented operator')
+                    new = self.ev_.lift(ops[type(st.op)], cur, v)
+                    if isinstance(t, ast.Name):
+                        self.ev_.env[t.id] = new
+                    elif isinstance(t, ast.Attribute):
+                        self.attrs[norm(t)] = new
+                    else:
+                        raise rf.Unknown('augmented store into an element')
+                    continue
+                if isinstance(st, ast.For):
+                    it, tg = st.iter, st.target
+                    src = it
+                    idx_t = None
+                    if isinstance(it, ast.Call) and norm(it.func) == 'enumerate' and it.args and isinstance(tg, ast.Tuple) and len(tg.elts) == 2:
+                        src, idx_t = it.args[0], tg.elts[0]
+                    elif isinstance(it, ast.Call) and norm(it.func) == 'range' and len(it.args) == 1 and isinstance(tg, ast.Name):
+                        a = it.args[0]
+                        src = a.args[0] if isinstance(a, ast.Call) and norm(a.func) == 'len' and a.args else a
+                        idx_t = tg
+                    cnt = self.iter_counts.get(norm(src))
+                    if cnt is None:
+                        v = None
+                        try:
+                            v = self.value(src)
+                        except rf.Unknown:
+                            pass
+                        cnt = len(v) if isinstance(v, list) else None
+                    if cnt is None or idx_t is None or not isinstance(idx_t, ast.Name):
+                        raise rf.Unknown(f'loop over `{norm(it)[:40]}`')
+                    for k in range(cnt):
+                        self.ev_.env[idx_t.id] = k
+                        block(st.body)
+                    continue
+                if isinstance(st, ast.If):
+                    continue          # warnings about degenerate classes
+                if isinstance(st, ast.Return) and st.value is not None:
+                    outs.append(self.value(st.value))
+                    continue
+                raise rf.Unknown(f'statement `{norm(st)[:40]}`')
+        block(fnode.body)
+        return outs
+
+
+def d9(ctx, prog):
+    """templates, pooled covariance and matching score as rational functions (one sample per trace, three symbolic classes with at
+    least two traces each, two symbolic matching traces):
+       template_k = e_k / c_k          pooled = (1/K) sum_k (xx_k - c_k template_k^2) / (c_k - 1)          inverse = pinv(pooled)
+       batch contribution of a hypothesis = sum_j (x_j - t) cinv (x_j - t) / S          score = 10 - accumulated / n
+    each compared with what the code computes by cross-multiplication of polynomial normal forms."""
+    from .. import ratfun as rf
+    Poly, RF = rf.Poly, rf.RF
+    K = 3
+    n = 0
+    one = Poly.const(1)
+    build = prog.need_class(TPL, '_TemplateBuildDistinguisherMixin')
+    f = build.methods.get('_compute')
+    key = f'{f.key}::formulas'
+
+    def same(a, b):
+        return a.num * b.den == b.num * a.den
+    try:
+        ev = _TplEval(rf, K, {'self._trace_length': RF(one)}, {'self._counters': [f'c{k}' for k in range(K)], 'self._exi': [f'e{k}' for k in range(K)], 'self._exxi': [f'x{k}' for k in range(K)]},
+                      {'self.partitions': K})
+        outs = ev.run(f.node)
+        c, e, x = ([Poly.sym(f'{s_}{k}') for k in range(K)] for s_ in 'cex')
+        want_t = [RF(e[k], c[k]) for k in range(K)]
+        covs = [RF(x[k]).add(RF(c[k]).mul(want_t[k]).mul(want_t[k]), -1).mul(RF(c[k] - one), -1) for k in range(K)]
+        want_p = covs[0].add(covs[1]).add(covs[2]).mul(RF(Poly.const(K)), -1)
+        n += 1
+        got_t = outs[0] if outs else None
+        ok_t = isinstance(got_t, list) and len(got_t) == K and all(same(got_t[k], want_t[k]) for k in range(K))
+        ctx.check(ok_t, 'C14-D9', f'{key} templates', 'what the build returns as templates is not the class sum divided by the class count (the mean of the building traces of each class)',
+                  'template_k = sum of the traces of class k / number of traces of class k', f.where())
+        n += 1
+        got_p = ev.attrs.get('self.pooled_covariance')
+        ctx.check(isinstance(got_p, RF) and same(got_p, want_p), 'C14-D9', f'{key} pooled covariance',
+                  'self.pooled_covariance is not the average over the declared classes of the unbiased within-class covariances (xx_k - c_k m_k m_k^T) / (c_k - 1)',
+                  'pooled covariance = (1/K) sum_k (xx_k - c_k m_k m_k^T) / (c_k - 1)', f.where())
+        n += 1
+        got_i = ev.attrs.get('self.pooled_covariance_inv')
+        ctx.check(isinstance(got_i, RF) and same(got_i, RF(one).mul(want_p, -1)), 'C14-D9', f'{key} inverse', 'self.pooled_covariance_inv is not the (pseudo-)inverse of the final pooled covariance',
+                  'inverse taken of the final pooled covariance', f.where())
+    except rf.Unknown as ex:
+        ctx.undecided('C14-D9', key, f'formulas not derivable: {ex}', f.where())
+    match = prog.need_class(TPL, '_BaseTemplateAttackDistinguisherMixin')
+    upd, comp = match.methods.get('_update'), match.methods.get('_compute')
+    key = f'{upd.key}::score contribution'
+    try:
+        from .. import normalize
+        updn = normalize.normal(prog, upd, skip={'get_template_index', '_get_dimension'})
+        tp = [p_ for p_ in upd.params if p_ != 'self'][0]
+        ev = _TplEval(rf, 2, {'self.pooled_covariance_inv': 'cinv', f'{tp}.shape[1]': 'S', 'self.templates': 't', 'self._scores': 'acc'}, {tp: ['x0', 'x1']}, {})
+        # one hypothesis: the loop over the candidates runs once
+        for lp in ast.walk(updn.node):
+            if isinstance(lp, ast.For) and isinstance(lp.iter, ast.Call) and norm(lp.iter.func) == 'range' and lp.iter.args:
+                a = lp.iter.args[0]
+                ev.iter_counts[norm(a.args[0]) if isinstance(a, ast.Call) and norm(a.func) == 'len' and a.args else norm(a)] = 1
+        ev.run(updn.node)
+        got = ev.attrs.get('self._scores')
+        t, cinv, S = Poly.sym('t'), Poly.sym('cinv'), Poly.sym('S')
+        d0, d1 = Poly.sym('x0') - t, Poly.sym('x1') - t
+        want = RF((d0 * d0 + d1 * d1) * cinv, S)
+        n += 1
+        base0 = RF(Poly.sym('self._scores')) if False else None
+        # the accumulator itself is a symbol: got = self._scores + contribution
+        ok = isinstance(got, RF) and same(got.add(RF(Poly.sym('acc')), -1), want)
+        ctx.check(ok, 'C14-D9', key, 'the contribution of a batch to a candidate\'s score is not sum_j (x_j - t) C^-1 (x_j - t)^T divided by the number of samples',
+                  'contribution = sum over the traces of the squared Mahalanobis distance to the candidate template / number of samples', upd.where())
+    except rf.Unknown as ex:
+        ctx.undecided('C14-D9', key, f'formula not derivable: {ex}', upd.where())
+    key = f'{comp.key}::score'
+    try:
+        outs = rf.run_function(comp.node, {'self._scores': 'acc', 'self.processed_traces': 'n'})
+        want = RF(Poly.const(10) * Poly.sym('n') - Poly.sym('acc'), Poly.sym('n'))
+        n += 1
+        ctx.check(bool(outs) and all(same(v, want) for v, st_ in outs), 'C14-D9', key, 'the score returned is not 10 minus the accumulated distance divided by the number of matched traces',
+                  'score = 10 - accumulated / n', comp.where())
+    except rf.Unknown as ex:
+        ctx.undecided('C14-D9', key, f'formula not derivable: {ex}', comp.where())
+    return n
+
+
 def run(ctx, prog):
     from .. import universe as _uni0
     _uni0.inline_base_entry_points(ctx, prog)
@@ -216,6 +455,21 @@ def run(ctx, prog):
     ctx.rule('C14-D7', 'no constructor of the template classes accepts an argument it never reads (configuration such as precision must reach the build analysis)')
     ctx.rule('C14-D6', 'the compute closure of every template class (build and matching) has no persistent effect on accumulated state (ownership analysis): profiles can be rebuilt / scores re-read')
     ctx.floor('template classes checked for compute purity', npure, 3)
+    ctx.rule('C14-D10', 'template build kernels: class counters receive one increment per trace (literal 1 under a `sample == 0` pin, or an equality-mask sum), class membership by equality with the class position, sentinel guarded')
+    from .. import kernelrules as _kr
+    from .c11 import emit as _emit
+    _lk = lut.Lookup(prog)
+    n10 = 0
+    for f_, kind_, call_ in kernels.numba_funcs(prog):
+        if f_.mod.name != TPL or kind_ != 'njit' or not f_.name.startswith('_accumulate_core'):
+            continue
+        cps = [p_ for p_ in f_.params if 'counter' in p_]
+        res_ = _kr.count_discipline(prog, f_, cps) + _kr.membership_comparisons(prog, f_, _lk.maybe_params(f_)) + _kr.sentinel_discipline(prog, f_, _lk.maybe_params(f_))[0]
+        n10 += len(res_)
+        _emit(ctx, 'C14-D10', res_)
+    ctx.floor('template kernel counter / membership obligations', n10, 3)
+    ctx.rule('C14-D9', 'rational-function normal forms under the one-sample abstraction: class means, pooled unbiased covariance averaged over the declared classes, its inverse, the Mahalanobis contribution per batch and the score 10 - accumulated / n')
+    ctx.floor('template formulas compared with their definitions', d9(ctx, prog), 5)
     # C14-D8: the matched-trace mean only counts accepted batches - the C16 analysis instantiated for the template classes
     ctx.rule('C14-D8', 'a matching / building batch that is refused (explicit raise reachable from update) leaves no partial contribution in the scores or the class sums (C16 analysis over the template classes)')
     from . import c16
